@@ -1,0 +1,120 @@
+//go:build verif
+
+/*
+ Licensed to the Apache Software Foundation (ASF) under one
+ or more contributor license agreements.  See the NOTICE file
+ distributed with this work for additional information
+ regarding copyright ownership.  The ASF licenses this file
+ to you under the Apache License, Version 2.0 (the
+ "License"); you may not use this file except in compliance
+ with the License.  You may obtain a copy of the License at
+
+     http://www.apache.org/licenses/LICENSE-2.0
+
+ Unless required by applicable law or agreed to in writing, software
+ distributed under the License is distributed on an "AS IS" BASIS,
+ WITHOUT WARRANTIES OR CONDITIONS OF ANY KIND, either express or implied.
+ See the License for the specific language governing permissions and
+ limitations under the License.
+*/
+
+package locking
+
+import (
+	"sync"
+	"sync/atomic"
+	"unsafe"
+)
+
+// Verification variant of the locking package (build tag verif). Same exported API as locking.go; every acquire and
+// release of a Mutex / RWMutex is reported to an optional process global hook BEFORE the real sync primitive is used.
+// A hook that blocks the caller in BeforeAcquire until it decides the acquisition may proceed turns the locks into
+// the scheduling points of a cooperative scheduler. Without a hook (the default) the types are plain sync mutexes.
+
+const (
+	EnvDeadlockDetectionEnabled = "DEADLOCK_DETECTION_ENABLED"
+	EnvDeadlockTimeoutSeconds   = "DEADLOCK_TIMEOUT_SECONDS"
+	EnvExitOnDeadlock           = "DEADLOCK_EXIT"
+	EnvDisableLockOrder         = "DEADLOCK_DISABLE_LOCK_ORDER"
+)
+
+// VerifHook observes lock operations. m identifies the mutex; write is false for RLock/RUnlock.
+type VerifHook interface {
+	BeforeAcquire(m unsafe.Pointer, write bool, rw bool)
+	AfterRelease(m unsafe.Pointer, write bool, rw bool)
+}
+
+type hookHolder struct{ h VerifHook }
+
+var verifHook atomic.Pointer[hookHolder]
+
+// VerifSetHook installs (or with nil removes) the process global hook.
+func VerifSetHook(h VerifHook) {
+	if h == nil {
+		verifHook.Store(nil)
+		return
+	}
+	verifHook.Store(&hookHolder{h: h})
+}
+
+func IsTrackingEnabled() bool {
+	return false
+}
+
+func GetDeadlockTimeoutSeconds() int {
+	return 60
+}
+
+func IsDeadlockDetected() bool {
+	return false
+}
+
+type Mutex struct {
+	mu sync.Mutex
+}
+
+func (m *Mutex) Lock() {
+	if hh := verifHook.Load(); hh != nil {
+		hh.h.BeforeAcquire(unsafe.Pointer(m), true, false)
+	}
+	m.mu.Lock()
+}
+
+func (m *Mutex) Unlock() {
+	m.mu.Unlock()
+	if hh := verifHook.Load(); hh != nil {
+		hh.h.AfterRelease(unsafe.Pointer(m), true, false)
+	}
+}
+
+type RWMutex struct {
+	mu sync.RWMutex
+}
+
+func (m *RWMutex) Lock() {
+	if hh := verifHook.Load(); hh != nil {
+		hh.h.BeforeAcquire(unsafe.Pointer(m), true, true)
+	}
+	m.mu.Lock()
+}
+
+func (m *RWMutex) Unlock() {
+	m.mu.Unlock()
+	if hh := verifHook.Load(); hh != nil {
+		hh.h.AfterRelease(unsafe.Pointer(m), true, true)
+	}
+}
+
+func (m *RWMutex) RLock() {
+	if hh := verifHook.Load(); hh != nil {
+		hh.h.BeforeAcquire(unsafe.Pointer(m), false, true)
+	}
+	m.mu.RLock()
+}
+
+func (m *RWMutex) RUnlock() {
+	m.mu.RUnlock()
+	if hh := verifHook.Load(); hh != nil {
+		hh.h.AfterRelease(unsafe.Pointer(m), false, true)
+	}
+}
